@@ -118,6 +118,7 @@ def hypsB (K : Bytes) (db : DB) (t : Tape) (absent : List Bytes) : Bool :=
   | .ok (avail, t0) =>
     Chain.nodupB (avail.map natToBytesMin) && avail.all (· > 0) &&
     avail.all (· < arrayLen cfg db) &&                 -- `setup_never_raises`: a sample of range(1, |A|)
+    db.all (fun p => p.2.all fun x => x.length == cfg.idSize.toNat) &&   -- C05 (`PiPtr.shape`): identifiers of the configured size
     match encDb cfg lv K (bytesFor (arrayLen cfg db)) db avail (List.replicate (arrayLen cfg db) none) t0 with
     | .error _ => false
     | .ok (L, _, _) =>
